@@ -625,8 +625,11 @@ func judgeValidation(r *Run, j *Judged, c *cls, by map[int]*OResp) {
 	j.count("C02", "unvalidated-reuse")
 	if len(why) > 0 && c.fg304 == nil {
 		excused := false
-		if !strict && c.fgFail != nil {
-			excused = true // request directive + failed validation: stale-if-error territory (C13)
+		if !strict && c.fgFail != nil && !c.reqCC.has("no-cache") {
+			// a request max-age the stored response exceeds + failed validation: stale-if-error territory (C13).
+			// Not so request no-cache: "returned only after the origin ... answered 304; otherwise the origin's own
+			// answer (or its failure) is returned", and no-cache is not overridden by stale-if-error.
+			excused = true
 		}
 		if !excused {
 			sig := strings.Join(why, "+")
@@ -1095,10 +1098,13 @@ func judgeSIE(r *Run, j *Judged, c *cls, by map[int]*OResp) {
 	if c.reqCC.has("max-age") || c.reqCC.has("min-fresh") {
 		return // request max-age / min-fresh + stale-if-error: the statement does not settle what "staleness" is then
 	}
-	// request no-cache: whether stale-if-error may answer such a request at all is not settled either, so "must be
-	// served" is not claimed; but outside the window (or with a forbidding directive, or an ineligible status) the
-	// stored response must not be served under either reading
-	reqNoCache := c.reqCC.has("no-cache")
+	// request no-cache applies like the stored one: "when must-revalidate or no-cache applies, the origin's error
+	// response or the error is returned and the stored response is not" (and C02: such a request is answered from the
+	// store only after a 304 in the same exchange, "otherwise the origin's own answer (or its failure) is returned")
+	if c.reqCC.has("no-cache") {
+		forbidden = true
+	}
+	reqNoCache := false
 	g := c.guard(r)
 	servedB := c.stored && c.B == B && e.Err == "" // (a response handed back together with an error is a failure to every caller)
 	staleHi, staleLo := satAdd(aHi, -lLo), satAdd(aLo, -lHi)
